@@ -411,7 +411,12 @@ def run_case(case, sched):
                     return ("skip", str(e))
                 d0 = api.digest_args(args)
                 rng0 = hashlib.sha1(np.random.get_state()[1].tobytes() + bytes([np.random.get_state()[2] % 256])).hexdigest()
+                import random as _pyrandom
+                pr0 = _pyrandom.getstate()
                 out = api.run_thunk(thunk)
+                if _pyrandom.getstate() != pr0:
+                    raise Violation("global-rng-untouched", site, "python-random",
+                                    "the state of Python's global `random` generator changed across the call", opi)
                 d1 = api.digest_args(args)
                 rng1 = hashlib.sha1(np.random.get_state()[1].tobytes() + bytes([np.random.get_state()[2] % 256])).hexdigest()
                 if d0 != d1:
